@@ -7,7 +7,7 @@ def plan(tier):
     conds += C.t_upd_conds("C02", tier)
     from vf.driver import Cond
     for r in ((1, 2) if tier == "quick" else range(5)):
-        conds.append(Cond("vf.h.h_queue", "h_fifo", case=r, timeout=900, env={"VF_ORACLE": "C02", "VF_ROLESET": "0,1,2,4,5,6"}, label=f"T-all[v0 role {r}]", weight=30))
+        conds.append(Cond("vf.h.h_queue", "h_fifo", case=r, timeout=1500, env={"VF_ORACLE": "C02", "VF_ROLESET": "1,2,4,6"}, label=f"T-all[v0 role {r}]", weight=30))
     for case in range(3):
         conds.append(Cond("vf.h.h_prim", "h_prim", case=case, timeout=300, label=f"H02-prim[{('ChargerState', 'Station', 'Base')[case]}]", weight=3))
     return {
